@@ -76,7 +76,11 @@ def generate(seed, tier="quick"):
     # the test files live in a sub-package with its own pyproject.toml that has no [tool.black] table: the project's options are still the ones of the
     # pyproject.toml in the directory pytest was started in (black skips files without its table)
     subdir = lrng.choice(['[project]\nname = "pkg"\nversion = "1"\n', '[tool.isort]\nprofile = "black"\n', "", None]) if lrng.random() < 0.3 else None
-    return {"program": prog, "black": draw_mode(sub(seed, "mode")), "steps": steps, "clean": sub(seed, "clean").random() < 0.75, "subdir": subdir}
+    # the session is started in a directory next to the project, which is a project of its own with a format-command configured; the project under
+    # test has none, so its files are formatted (or left alone) exactly as if pytest had been started inside it
+    elsewhere = sub(seed, "elsewhere").random() < 0.25
+    return {"program": prog, "black": draw_mode(sub(seed, "mode")), "steps": steps, "clean": sub(seed, "clean").random() < (0.5 if elsewhere else 0.75), "subdir": subdir,
+            "elsewhere": elsewhere}
 
 
 def execute(case, ctx):
@@ -108,7 +112,11 @@ def execute(case, ctx):
     cur = sim.to_bytes(files)
     for si, cats in enumerate(case["steps"]):
         flags = ",".join(["report"] + sorted(cats))
-        new, res = sim.run_session(ctx, "plugin", cur, {"flags": flags})
+        spec = {"flags": flags}
+        if case.get("elsewhere"):
+            ctx.count("probe_session_started_in_a_neighbouring_project_with_a_format_command")
+            spec.update(from_sibling=True, start_pyproject=sim.pyproject_for({"kind": "cmd"}), fmt={"kind": "cmd", "stub": "black", "mode": {"line_length": 33}})
+        new, res = sim.run_session(ctx, "plugin", cur, spec)
         if not sim.session_completed("plugin", res):
             out["discards"]["session-did-not-complete(C18)"] = 1
             return out
@@ -168,6 +176,8 @@ def shrink(case):
         yield dict(case, program=p)
     if case.get("subdir") is not None:
         yield dict(case, subdir=None)
+    if case.get("elsewhere"):
+        yield dict(case, elsewhere=False)
     for k in list(case["black"]):
         b = dict(case["black"])
         del b[k]
